@@ -20,7 +20,7 @@ RULE = ('Generated .rules files (0-8 rules, categorizing and tag-only interleave
 ASSUMPTIONS = ['reference classifier in tv/rules.py is the reading of the documentation',
                'CSV patterns that look like expressions are a known finding (D-csv-heuristic) and are excluded by construction, counted',
                'month/year/day/weekday of a missing date: not asserted']
-REQUIRED_CLASSES = ['chained_transforms', 'shadowed_winner', 'tagonly_before_winner', 'transform_changes_winner', 'no_match', 'csv_modifier_decides', 'let_in_play']
+REQUIRED_CLASSES = ['statement_file', 'chained_transforms', 'shadowed_winner', 'tagonly_before_winner', 'transform_changes_winner', 'no_match', 'csv_modifier_decides', 'let_in_play']
 
 case_st = st.deferred(lambda: _case())
 
@@ -53,6 +53,42 @@ def classify(engine, txn, rows, case):
         return obs.engine_classify(engine, txn, rows)
     except obs.Crash as c:
         raise Violation(f'{c} on {txn}', case, 'crash')
+
+
+def statement_file(case, path, rows, loaded, text, classes):
+    """The same transactions written as ONE statement file (custom columns captured) and read by parse_generic_csv - the path `tally up` takes:
+    every row must get the classification normalize_merchant gives that row alone."""
+    import csv as _csv
+    import os
+    from tally.format_parser import parse_format_string
+    from tally.parsers import extract_location, parse_generic_csv
+    txns = [t for t in case['txns'] if t['date'] and t['description'].strip() and '\n' not in t['description'] and '\r' not in t['description']]
+    if len(txns) < 2 or loaded is None:
+        return
+    fp = os.path.join(os.path.dirname(path), 'statement.csv')
+    with open(fp, 'w', newline='', encoding='utf-8') as f:
+        w = _csv.writer(f)
+        w.writerow(['Date', 'Description', 'Amount', 'Memo', 'Type', 'Code', 'Vendor'])
+        for t in txns:
+            fld = t['field'] or {}
+            w.writerow([t['date'], t['description'], repr(t['amount'])] + [fld.get(k, '') for k in ('memo', 'type', 'code', 'vendor')])
+    spec = parse_format_string('{date:%Y-%m-%d},{description},{amount},{memo},{type},{code},{vendor}')
+    rules, transforms = loaded
+    try:
+        out = parse_generic_csv(fp, spec, rules, source_name='Amex', transforms=transforms, data_sources=rows)
+    except Exception as e:
+        raise Violation(f'parse_generic_csv aborted on a statement of {len(txns)} rows: {type(e).__name__}: {e}\n{text}', case, 'crash')
+    if len(out) != len(txns):
+        raise Violation(f'parse_generic_csv returned {len(out)} transactions for {len(txns)} well-formed rows\n{txns}\n{text}', case, 'statement-rows')
+    for t, got in zip(txns, out):
+        fld = t['field'] or {}
+        desc = t['description'].strip()
+        alone = lang.mk_txn(dict(t, amount=float(t['amount']), description=desc, field={k: fld.get(k, '').strip() for k in ('memo', 'type', 'code', 'vendor')}, source='Amex', location=extract_location(desc)))
+        b = obs.pipeline_classify(path, alone, rows, loaded=loaded)
+        if (got['merchant'], got['category'], got['subcategory']) != mcs(b) or set(got['tags']) != b['tags']:
+            raise Violation(f"row {t} of a statement file is classified {(got['merchant'], got['category'], got['subcategory'], sorted(got['tags']))}, the same row alone "
+                            f"{mcs(b) + (sorted(b['tags']),)}\nall rows: {txns}\n{text}", case, 'statement-row')
+    classes.add('statement_file')
 
 
 def check(case, stats: Stats):
@@ -132,6 +168,7 @@ def check(case, stats: Stats):
                 except lang.Unspecified:
                     pass
         metamorphic(case, rf, engine, txn, tc, rows, a, classes)
+    statement_file(case, path, rows, loaded, text, classes)
     # Unknown name depends on the description only
     t1 = lang.mk_txn(case['txns'][0])
     alt = lang.mk_txn(dict(case['alt'], description=case['txns'][0]['description']))
